@@ -55,7 +55,14 @@ def resolve_symbols(H, T, suffix):
     F = G.colliders(H, T, 0, 1, suffix, avoid=L)[0]
     wslot = H.slot(b"world", T)
     W = G.colliders(H, T, wslot, 1, suffix, avoid=L + [F])[0]
-    return {"L0": L[0], "L1": L[1], "L2": L[2], "F": F, "W": W, "P": L[0] + "x", "U": ""}
+    # P: an extension of L0 (L0 is a strict prefix of P) that ALSO lives in the last slot, so that a lookup of either one
+    # walks over the other one first, depending on the insertion order
+    P = None
+    for ext in G.candidates():
+        if H.slot(_b(L[0] + ext), T) == T - 1 and L[0] + ext not in L + [F, W]:
+            P = L[0] + ext
+            break
+    return {"L0": L[0], "L1": L[1], "L2": L[2], "F": F, "W": W, "P": P, "U": ""}
 
 
 def tuples(K):
@@ -78,6 +85,8 @@ def _cases(K):
     return out
 
 
+WORLDISH = ["worl", "worldx", "World", "wor ld", "world ", " world", "WORLD", "w", "orld", "worldworld", "world0", "wo", "world.",
+            "_world", "world_"]
 BASIC = ["a", "b", "ab", "a_b", "aa", "ba", "A", "abc", "b_a", "a__b", "_", "a.b", "a/b", "aaa", "B"]
 BLANK = [" ", "  ", " a", "a ", "a  b", "\t", "a\tb", "_", "-", "   ", " \t", ".", "..", "#", "?"]
 XMLCH = ["a&b", "a<b", "a>b", 'a"b', "a'b", "&amp;", "a;b", "<!--", "]]>", "&#0;", "a=b", "%s", "%d", "\\0", "\\"]
@@ -98,6 +107,8 @@ def curated(scheme, K, H, T, suffix):
         return [s + suffix if s != "" else "" for s in lst[:K]]
     if scheme == "basic":
         return sfx(BASIC)
+    if scheme == "worldish":
+        return sfx(WORLDISH)
     if scheme == "prefix":
         return sfx(["name_of_an_object"[:i + 1] for i in range(K)])
     if scheme == "prefix_rev":
@@ -141,7 +152,7 @@ def curated(scheme, K, H, T, suffix):
     raise KeyError(scheme)
 
 
-SCHEMES = ["basic", "prefix", "prefix_rev", "case", "blank", "xmlchars", "utf8", "digits", "long", "collide_last",
+SCHEMES = ["basic", "worldish", "prefix", "prefix_rev", "case", "blank", "xmlchars", "utf8", "digits", "long", "collide_last",
            "collide_first", "collide_mid", "cluster_wrap", "collide_unnamed_mid", "basic_unnamed_mid", "all_unnamed",
            "only_last_named", "only_first_named"]
 
@@ -150,17 +161,18 @@ def names_for(item, H):
     """item -> (names dict, K, anchor, modelname)"""
     kind = item[0]
     if kind == "lattice":
-        _, K, tup, anchor = item
+        _, K, tup, anchor, profile = item
         tag = 0
         scheme = None
     else:
-        _, scheme, K, tag, anchor = item
-    n = G.counts(K, anchor)
+        _, scheme, K, tag, anchor, profile = item
+    n = G.counts(K, anchor, profile)
+    nt = G.table_counts(K, anchor, profile)
     names = {}
     for ti, key in enumerate(G.TYPE_KEYS):
         if n[key] == 0:
             continue
-        T = 2 * n[key]
+        T = 2 * nt[key]
         suffix = ("." + key) if tag else ""
         if kind == "lattice":
             sym = resolve_symbols(H, T, suffix)
@@ -171,6 +183,7 @@ def names_for(item, H):
         lst = lst[r:] + lst[:r]
         if not G.UNNAMED_OK[key]:
             lst = [s if s != "" else "u%d%s" % (i, suffix) for i, s in enumerate(lst)]
+        lst = lst + ["zz%d%s" % (i, suffix) for i in range(n[key] - K)]   # fillers (per-type object counts differ)
         names[key] = lst
     cam = [s for s in names.get("camera", []) if s]
     modelname = cam[0] if cam else "m"
@@ -376,7 +389,7 @@ def collision_queries(H, exp, allnames):
 def check_generated(lib, part, H, codes, enum, item):
     names, K, anchor, modelname = names_for(item, H)
     comp = 'usethread="false"' if (zlib.crc32(repr(item).encode()) & 3) else ""
-    xml, exp = G.build_model(names, K, anchor, modelname, compiler=comp)
+    xml, exp = G.build_model(names, anchor, modelname, compiler=comp)
     label = repr(item)
     rp = {"item": item, "xml": xml if len(xml) < 20000 else xml[:2000] + "...", "expected": {k: v for k, v in exp.items()}}
     try:
@@ -569,17 +582,17 @@ def run(ctx):
     Kmax = ctx.q(3, 4)
     items = []
     for K in range(1, Kmax + 1):
-        for tup in tuples(K):
-            items.append(("lattice", K, tup, True))
+        for ti, tup in enumerate(tuples(K)):
+            items.append(("lattice", K, tup, True, ti % 3))
             if K <= ctx.q(2, 3):
-                items.append(("lattice", K, tup, False))
+                items.append(("lattice", K, tup, False, (ti + 1) % 3))
     nl = len(items)
     Ks = ctx.q((2, 3, 5, 8), (1, 2, 3, 5, 8, 13))
-    for scheme in SCHEMES:
-        for K in Ks:
+    for si, scheme in enumerate(SCHEMES):
+        for ki, K in enumerate(Ks):
             for tag in (0, 1):
                 for anchor in (True, False) if K <= 3 else (True,):
-                    items.append(("curated", scheme, K, tag, anchor))
+                    items.append(("curated", scheme, K, tag, anchor, (si + ki + tag + anchor) % 3))
     for name, xml, exp, setonly in derived_models():
         items.append(("derived", name, xml, exp, setonly))
     for name, xml in selfcheck_models():
